@@ -193,7 +193,8 @@ class Prop:
 
     def reexecutable(self, case):
         """recorded many-thread histories cannot be re-executed deterministically: kept as recorded"""
-        return not (case.startswith("vq hist") or case.startswith("vq sched"))
+        return not (case.startswith("vq hist") or case.startswith("vq sched") or case.startswith("net hist")
+                    or case.startswith("stream mt"))
 
     def compare_possible(self):
         return os.path.exists(core.DRIVER)
